@@ -1,4 +1,5 @@
 import HdVerif.Proofs.SREvidence
+import HdVerif.Generated.T15c
 /-! # C15  SR documents carry their content intact with complete evidence
 
 Property theorems only.  The model is `Model/SREvidence.lean` (hand-written, tied to `/repo` by the
@@ -17,6 +18,19 @@ theorem find_recursive_spec (root : Item) (q : Query) (h : root.hasSeq = true) :
 /-- … and without recursion exactly the matching direct children. -/
 theorem find_flat_spec (root : Item) (q : Query) (h : root.hasSeq = true) :
     findContentItems root q false = .ok (root.children.filter q.matches) := find_flat root q h
+
+/-- The test the model applies to every item (`Query.matches`) is the conjunction of the three predicates of
+`find_content_items` as they stand in the source now (`Gen.findHas*`, regenerated every run; T15c also checks the shape of
+`search_tree`: item first, then — iff it has a ContentSequence and `recursive` — its children). -/
+theorem item_test_is_source_test (q : Query) (it : Item) :
+    (do
+      let a ← Gen.findHasName q.name.isSome (some it.name == q.name)
+      let b ← Gen.findHasValueType q.vt.isSome (some it.vt == q.vt)
+      let c ← Gen.findHasRelationshipType q.rel.isSome it.rel.isNone (it.rel == q.rel)
+      pure (a && b && c)) = (.ok (q.matches it) : Except ErrKind Bool) := by
+  unfold Query.matches Gen.findHasName Gen.findHasValueType Gen.findHasRelationshipType
+  cases hn : q.name <;> cases hv : q.vt <;> cases hr : q.rel <;> cases hi : it.rel <;>
+    simp [bind, Except.bind, pure, Except.pure]
 
 /-- `descendants` really is "at any depth": an item is a descendant iff a chain of content sequences leads
 from the root to it. -/
